@@ -87,6 +87,9 @@ func WireToProto(in message.Message) (*autogen.Message, error) {
 		if err != nil {
 			return nil, errorConvertToProto(msg, err)
 		}
+		if err := checkUnixNano(msg.ServerTime); err != nil {
+			return nil, errorConvertToProto(msg, err)
+		}
 		return &autogen.Message{Message: &autogen.Message_UpstreamOpenResponse{
 			UpstreamOpenResponse: &autogen.UpstreamOpenResponse{
 				RequestId:             uint32(msg.RequestID),
@@ -168,6 +171,9 @@ func WireToProto(in message.Message) (*autogen.Message, error) {
 	case *message.DownstreamOpenResponse:
 		rc, err := toResultCodeProto(msg.ResultCode)
 		if err != nil {
+			return nil, errorConvertToProto(msg, err)
+		}
+		if err := checkUnixNano(msg.ServerTime); err != nil {
 			return nil, errorConvertToProto(msg, err)
 		}
 		return &autogen.Message{Message: &autogen.Message_DownstreamOpenResponse{
@@ -610,6 +616,11 @@ func toUpstreamMetadataProto(in *message.UpstreamMetadata) (*autogen.UpstreamMet
 	}
 	switch v := in.Metadata.(type) {
 	case *message.BaseTime:
+		if v != nil {
+			if err := checkUnixNano(v.BaseTime); err != nil {
+				return nil, err
+			}
+		}
 		res.Metadata = &autogen.UpstreamMetadata_BaseTime{
 			BaseTime: ToBaseTimeProto(v),
 		}
@@ -649,6 +660,11 @@ func toDownstreamMetadataProto(in *message.DownstreamMetadata) (*autogen.Downstr
 	}
 	switch v := in.Metadata.(type) {
 	case *message.BaseTime:
+		if v != nil {
+			if err := checkUnixNano(v.BaseTime); err != nil {
+				return nil, err
+			}
+		}
 		res.Metadata = &autogen.DownstreamMetadata_BaseTime{
 			BaseTime: ToBaseTimeProto(v),
 		}
@@ -1119,6 +1135,18 @@ func toUint32Units(d, unit time.Duration) (uint32, error) {
 		return 0, errors.Errorf("duration %v does not fit the wire field (0..%d x %v): %w", d, uint32(math.MaxUint32), unit, errors.ErrMalformedMessage)
 	}
 	return uint32(n), nil
+}
+
+// checkUnixNano refuses an instant the wire's 64-bit nanosecond count cannot carry (time.Time.UnixNano is
+// undefined outside 1677-09-21 .. 2262-04-11); the zero time stands for "absent" and travels as 0.
+func checkUnixNano(t time.Time) error {
+	if t.IsZero() {
+		return nil
+	}
+	if t.Before(time.Unix(0, math.MinInt64)) || t.After(time.Unix(0, math.MaxInt64)) {
+		return errors.Errorf("time %v does not fit the wire field (nanoseconds since 1970 in 64 bits): %w", t, errors.ErrMalformedMessage)
+	}
+	return nil
 }
 
 func errorConvertToProto(m message.Message, err error) error {
